@@ -223,11 +223,7 @@ func (e *Exec) convert(fr *frame, st *State, x Val, from, to types.Type, pos tok
 		r := e.alloc(st)
 		h := e.elemHeap(el)
 		if eb, ok := el.Underlying().(*types.Basic); ok && eb.Kind() == types.Uint8 {
-			e.ctx.declareFun("str_bytes", []string{sStr}, arraySort(sInt, sInt))
-			if !e.boxAx["str_bytes"] {
-				e.boxAx["str_bytes"] = true
-				e.ctx.assumeGlobal("(forall ((s Str) (i Int)) (! (= (select (str_bytes s) i) (sat s i)) :pattern ((select (str_bytes s) i))))")
-			}
+			e.declareByteStr()
 			e.setHeap(st, h, sto(e.heapTerm(st, h), r, app("str_bytes", x.T)))
 			return Val{T: mkSlice(r, "0", app("slen", x.T), app("slen", x.T)), S: sSlice}
 		}
@@ -244,12 +240,7 @@ func (e *Exec) convert(fr *frame, st *State, x Val, from, to types.Type, pos tok
 		h := e.elemHeap(el)
 		arr := sel(e.heapTerm(st, h), slRef(x.T))
 		if eb, ok := el.Underlying().(*types.Basic); ok && eb.Kind() == types.Uint8 {
-			e.ctx.declareFun("bytes_str", []string{arraySort(sInt, sInt), sInt, sInt}, sStr)
-			if !e.boxAx["bytes_str"] {
-				e.boxAx["bytes_str"] = true
-				e.ctx.assumeGlobal("(forall ((a (Array Int Int)) (o Int) (n Int)) (! (=> (>= n 0) (= (slen (bytes_str a o n)) n)) :pattern ((bytes_str a o n))))")
-				e.ctx.assumeGlobal("(forall ((a (Array Int Int)) (o Int) (n Int) (i Int)) (! (=> (and (<= 0 i) (< i n)) (= (sat (bytes_str a o n) i) (select a (+ o i)))) :pattern ((sat (bytes_str a o n) i))))")
-			}
+			e.declareByteStr()
 			return Val{T: app("bytes_str", arr, slOff(x.T), slLen(x.T)), S: sStr}
 		}
 		// string([]rune): a function of the element heap and the slice; for ASCII
@@ -282,3 +273,23 @@ func rangeWithin(flo, fhi, tlo, thi string) bool {
 // bit-vector mode is implemented in bv.go
 
 func el0(t types.Type) types.Type { return t.Underlying().(*types.Slice).Elem() }
+
+// declareByteStr declares the string<->[]byte conversion functions with their
+// axioms, including that converting a string to bytes and back is the identity.
+func (e *Exec) declareByteStr() {
+	e.ctx.declareFun("str_bytes", []string{sStr}, arraySort(sInt, sInt))
+	if !e.boxAx["str_bytes"] {
+		e.boxAx["str_bytes"] = true
+		e.ctx.assumeGlobal("(forall ((s Str) (i Int)) (! (= (select (str_bytes s) i) (sat s i)) :pattern ((select (str_bytes s) i))))")
+	}
+	e.ctx.declareFun("bytes_str", []string{arraySort(sInt, sInt), sInt, sInt}, sStr)
+	if !e.boxAx["bytes_str"] {
+		e.boxAx["bytes_str"] = true
+		e.ctx.assumeGlobal("(forall ((a (Array Int Int)) (o Int) (n Int)) (! (=> (>= n 0) (= (slen (bytes_str a o n)) n)) :pattern ((bytes_str a o n))))")
+		e.ctx.assumeGlobal("(forall ((a (Array Int Int)) (o Int) (n Int) (i Int)) (! (=> (and (<= 0 i) (< i n)) (= (sat (bytes_str a o n) i) (select a (+ o i)))) :pattern ((sat (bytes_str a o n) i))))")
+	}
+	if !e.boxAx["bytes_str_rt"] {
+		e.boxAx["bytes_str_rt"] = true
+		e.ctx.assumeGlobal("(forall ((s Str)) (! (= (bytes_str (str_bytes s) 0 (slen s)) s) :pattern ((str_bytes s))))")
+	}
+}
